@@ -573,7 +573,7 @@ def run(tier, seed, replay=None):
 
 
 UNPROVED = [
-    "regenerated triParts (GenerateTriPartsFromTrueTriangles) names, for a shape without duplicate triangles, the partition that holds each triangle: only its range and totality are proved (C10_prepare_triparts_regenerated); the content is correspondence + spec search (and refuted for triangles in no partition: C10_get_unassigned_refuted)",
+    "regenerated triParts (GenerateTriPartsFromTrueTriangles): proved are totality, range [-1, partitions) and -1 for every triangle no partition holds (C10_prepare_triparts_regenerated); that a HELD triangle gets the index of a partition holding it (false for duplicate shape triangles: only the last duplicate is found) is correspondence + spec search only",
     "DeletePartitions with an index list that is not strictly ascending (outside the documented precondition): correspondence only",
     "PrepareTrueTriangles for partitions that still carry strips (NifFile::Load of OB files): totality is proved for strip-free partitions only; strips are covered by the raw correspondence cases and C18_strips_correct",
     "save + reload (NiSkinPartition::Sync, PrepareData, RemoveInvalidTris) is not modelled in Coq: the property is evaluated on the reloaded dumps only",
@@ -587,7 +587,7 @@ MODELLED = [
     "SSE vertex data copy (NiSkinPartition::vertData, vertexDesc), lodLevel, globalVB: left out of the model (only copied)",
 ]
 ASSUMPTIONS = [
-    "UpdateSkinPartitions theorems: ks_update_accepts = the shape has triangles; behind PrepareTriParts triParts has one entry per triangle and every entry is below the partition count (negative = unassigned) - met when triParts is current and in range (after SetShapePartitions / DeletePartitions / a previous UpdateSkinPartitions) or regenerated with at least one partition (C10_prepare_triparts_regenerated); the dismember list, when present, has one entry per partition (kept by every partition operation: C10_set_partitions, C10_set_default_partition, C10_delete_partitions, C10_remove_empty_partitions, C10_dismember_aligned_update); no triangle corner is 65535; partitions + triangles < 2^31. Outside it the model faults exactly where the real code crashes (known findings C10-update-without-partitions-crash, C10-dismember-misaligned-crash).",
+    "UpdateSkinPartitions theorems: ks_update_accepts = the shape has triangles; behind PrepareTriParts triParts has one entry per triangle and every entry is below the partition count (negative = unassigned) - met when triParts is current and in range (after SetShapePartitions / DeletePartitions / a previous UpdateSkinPartitions) or regenerated (C10_prepare_triparts_regenerated; no partition at all is fine since the repair of GenerateTriPartsFromTrueTriangles: C10_update_without_partitions); the dismember list, when present, has one entry per partition (kept by every partition operation: C10_set_partitions, C10_set_default_partition, C10_delete_partitions, C10_remove_empty_partitions, C10_dismember_aligned_update); no triangle corner is 65535; partitions + triangles < 2^31. Outside it the model faults exactly where the real code crashes (known finding C10-dismember-misaligned-crash).",
     "bone_slots_valid additionally assumes at most 256 bones in the partition (uint8_t slot): implied by the bone limit for OB/FO3/SSE (C10_limit_implies_slots), a real hypothesis for Skyrim LE where it is refuted without it (C10_bone_slots_valid_refuted_sk; known finding C10-le-bone-slot-wrap); at most 65536 bones per shape (uint16_t boneIndex) is built into the model's wrap",
     "weights_normalised assumes non-negative input weights and speaks about exact rational arithmetic (partial: IEEE rounding not modelled)",
     "SetShapePartitions: fewer than 2^31-2 partition infos and ids below 2^31-3 (no C integer conversion wraps; ids of that size would need that many PartitionBlocks anyway), and one id per triangle (otherwise GenerateTrueTrianglesFromTriParts leaves the partitions alone)",
